@@ -24,6 +24,7 @@ from ._schema_common import (
     FINGERPRINT_ALGORITHMS,
     RABIN_64,
     rabin_fingerprint,
+    inline_references,
 )
 
 SYMBOL_REGEX = re.compile(r"[A-Za-z_][A-Za-z0-9_]*")
@@ -958,7 +959,11 @@ def to_parsing_canonical_form(schema: Schema) -> str:
 
     """
     fo = StringIO()
-    _to_parsing_canonical_form(parse_schema(schema), fo)
+    named_schemas: NamedSchemas = {}
+    parsed_schema = parse_schema(schema, named_schemas)
+    # Types that were parsed separately are only referred to by name: put their
+    # definitions back so that the text describes the whole schema
+    _to_parsing_canonical_form(inline_references(parsed_schema, named_schemas), fo)
     return fo.getvalue()
 
 
